@@ -84,11 +84,24 @@ def new_spec(desc):
     io = desc.get('io') or {}
     for v in sorted(io):
         api('set_var_io_type', spec.set_var_io_type, v, io[v])
-    if desc.get('unit'):
-        spec.unit = desc['unit']
-    if desc.get('sampling'):
-        p, u, tol = desc['sampling']
-        api('set_sampling_period', spec.set_sampling_period, p, u, tol)
+    def _unit():
+        if desc.get('unit'):
+            spec.unit = desc['unit']
+
+    def _sampling():
+        if desc.get('sampling'):
+            p, u, tol = desc['sampling']
+            if desc.get('sampling_omit_unit') and u == 's':
+                api('set_sampling_period', spec.set_sampling_period, p, tolerance=tol)   # the documented default unit is 's'
+            else:
+                api('set_sampling_period', spec.set_sampling_period, p, u, tol)
+    # the order of the two configuration calls is part of the configuration space
+    if desc.get('sampling_first'):
+        _sampling()
+        _unit()
+    else:
+        _unit()
+        _sampling()
     for s in desc.get('subspecs', []):
         api('add_sub_spec', spec.add_sub_spec, s)
     spec.spec = desc['spec']
